@@ -18,7 +18,7 @@ def mk(op, npre, dele=0, tiers=('quick', 'thorough')):
       stubs=['vstd map (association list), string, streams', 'operator new = calloc', 'ErrorDescriptor messages dropped', '__dynamic_cast = identity', 'STEPattribute::~STEPattribute left without body: the harness instances own no attributes, the destructor loop over an empty list never calls it'],
       out_of_claim='states with more than 4 live instances, display lists, VerifyInstances, long random histories',
       samples=[{'id': [5, 9, 12], 'st': [1, 1, 1], 'mx': 12, 'nid': 0, 'nst': 1, 'probe': 9, 'owns': 0}, {'id': [5, 9, 12], 'st': [1, 2, 4], 'mx': 40, 'nid': 9, 'nst': 2, 'probe': 41, 'owns': 1}, {'id': [3, 2, 1], 'st': [1, 1, 1], 'mx': 3, 'nid': 7, 'nst': 4, 'probe': 7, 'owns': 0}],
-      timeout={'quick': 300, 'thorough': 1200})
+      timeout={'quick': 900, 'thorough': 2400})
 HARNESSES = []
 for n in (0, 1, 2, 3):
     HARNESSES += [mk(0, n), mk(5, n, tiers=('thorough',) if n not in (0, 2) else ('quick', 'thorough')), mk(6, n, tiers=('thorough',) if n != 2 else ('quick', 'thorough'))]
